@@ -10,7 +10,11 @@ for mp in sorted(glob.glob(os.path.join(src, "seeded", "*", "meta.json"))):
     if not os.path.exists(dst):
         continue
     a = json.load(open(mp)).get("verif", {}); d = json.load(open(dst)); v = d.setdefault("verif", {})
+    for k in ("confirm_cmd", "confirm_result", "confirmed"):
+        if k in a and k not in v:
+            v[k] = a[k]
     if "check_runs" not in a:
+        json.dump(d, open(dst, "w"), indent=1)
         continue
     runs = []
     for r in a["check_runs"]:
